@@ -125,6 +125,8 @@ THEOREMS = [
     "IrVerif.PassInfra.C14_keeps_sorted_add",
     "IrVerif.PassInfra.C14_wf_remove_unused_nodes",
     "IrVerif.PassInfra.C14_wf_identity_elimination",
+    "IrVerif.PassInfra.C14_wf_init_inputs",
+    "IrVerif.PassInfra.C14_wf_output_fix",
     "IrVerif.PassInfra.C14_wf_replay",
 ]
 ASSUMPTIONS = [
@@ -143,13 +145,29 @@ ASSUMPTIONS = [
     "'ordered stays ordered' (C05's noFwdG for all graphs = `sortedModel`, compared with the oracle's is_sorted on "
     "ordered and unordered models) is a theorem for RemoveUnusedNodes, LiftConstants, LiftSubgraphInitializers, "
     "Remove/AddInitializers{From,To}Inputs, IdentityElimination and Deduplicate(Hashed)Initializers (the last under ssaG)",
-    "NO theorem (oracle only, on generated models): flag honesty / fixpoint / measure of Inline, AddDefaultAttributes and of "
-    "the schema-driven optional-output removal inside RemoveUnusedNodes; the CSE measure in rounds with a stalled Identity "
-    "rewrite; use-def/ownership consistency after a pass; 'ordered stays ordered' for CSE, OutputFix, Inline, "
-    "AddDefaultAttributes; 'names needed for serialization are kept' (for NameFix it follows from C15_namefix_post); "
+    "second deepening round: InlinePass on C05's model of the pass (Model/Inline.lean, read-only; flag = bool(total_inlined) = "
+    "ISt.count != 0, Model/PassFlags3.lean): flag honesty under funcIdsNodup (model.functions is a dictionary), 'a run that is "
+    "not stuck leaves no accepted call', idempotence and the measure #accepted call nodes under stuck = false (the unrolling "
+    "budget of the MODEL sufficed); on validF models that do not make the pass raise everything holds of inlineModel, the "
+    "function compared with the real pass (stuck = false by C05_inline_total); all three hypotheses evaluated and published per "
+    "case.  CSE: C14_measure_cse / C14_rounds_cse hold on C05's validModel (evaluated; 100% of the compared cases): cseMu = "
+    "W*(W*W+1) + (W*W - Identity-chain depth) strictly decreases in EVERY modifying round (also the 'stalled' ones), the bound "
+    "on the rounds is cubic in the size of the main graph.  'Ordered stays ordered' for the node-adding passes CSE and OutputFix "
+    "is a theorem on validModel inputs only (corollary of C05_pass_valid).  Use-def / ownership / names: RemoveUnusedNodes "
+    "(without the schema-driven part), IdentityElimination, Remove/AddInitializers{From,To}Inputs and OutputFix (which creates nodes) are written as programs over "
+    "C01's kernel (Model/PassKernel.lean) and keep C01's invariant WF; the tie to the code is the comparison of the kernel-visible "
+    "world (names, producers, uses, ownership flags and counters, initializer keys, node sequences, name authority) after the "
+    "real pass with the world after the kernel program, on worlds built through C01's alphabet (harness/kernel_ops.Real); shapes, "
+    "types and metadata are not in that world",
+    "NO theorem (oracle only, on generated models): flag honesty / fixpoint / measure of AddDefaultAttributes and of "
+    "the schema-driven optional-output removal inside RemoveUnusedNodes; use-def/ownership consistency and 'names kept' for the "
+    "passes that are not kernel programs (CSE, Inline, LiftConstants, LiftSubgraphInitializers, Deduplicate, NameFix, "
+    "TopologicalSort, AddDefaultAttributes: they create nodes / values or rename through private state, or - NameFix, "
+    "TopologicalSort - are the subject of C15 / C12); 'ordered stays ordered' for Inline and AddDefaultAttributes and for CSE / "
+    "OutputFix on models that are ordered but not well-formed; "
     "no theorem is about serialized bytes (the theorems speak about the model value of C05's IR - structure and value "
-    "identities, not names / shapes / types / metadata - resp. about every name and initializer key for NameFix); "
-    "C05's and C15's models are imported read-only and are tied to the real passes (flag AND result) on every run",
+    "identities, not names / shapes / types / metadata - resp. about every name and initializer key for NameFix, resp. about "
+    "C01's kernel world); C01's, C05's and C15's models are imported read-only and are tied to the real passes on every run",
     "C14_rounds/C14_fixpoint(_obs) assume a measure that decreases when modified=True and an honest False flag; both are "
     "proved for the transcribed passes above and checked by the oracle for all others",
     "call_onnx_api / CheckerPass / failed ShapeInference leave the model unchanged EXCEPT tensor.name: serialization "
@@ -2456,6 +2474,16 @@ def _flags2_special(seed: int):
             n = named(ir.node("Relu", [src]))
             nodes.append(n)
             outs.append(n.outputs[0])
+    if r.random() < 0.35:
+        # equal Identity nodes reading a graph output, all of them graph outputs: every rewrite of the round is "stalled"
+        # (an Identity node is replaced by an Identity node one link deeper)
+        src = r.choice(pool)
+        if src not in outs:
+            outs.append(src)
+        for _ in range(r.choice([2, 3, 4])):
+            n = named(ir.node("Identity", [src]))
+            nodes.append(n)
+            outs.append(n.outputs[0])
     inits = [n._cond for n in nodes if hasattr(n, "_cond")]
     g = ir.Graph(inputs, outs, nodes=nodes, initializers=inits, opset_imports={"": 20}, name="main")
     return ir.Model(g, ir_version=10)
@@ -2737,6 +2765,9 @@ def namefix_case(part: Part, reqs: list, seed: int) -> None:
 # RemoveUnusedNodes / IdentityElimination as programs over C01's kernel (`passinfra.kpass`, Model/PassKernel.lean).
 
 
+_EDGE_MODELS = None  # C05's hand-written function-call edge models (built once per process)
+
+
 def _inl_calls(model, accept) -> int:
     """`inlCalls`: call nodes (main graph, functions, nested graphs) to a model-local function that the criteria accept"""
     import onnx_ir as ir
@@ -2759,7 +2790,10 @@ def inline_case(part: Part, reqs: list, seed: int) -> None:
     r = random.Random(f"inline:{seed}")
     source = ["c05", "c05", "edge", "c14", "c05"][seed % 5]
     if source == "edge":
-        edge = c05._fn_edge_models()
+        global _EDGE_MODELS
+        if _EDGE_MODELS is None:
+            _EDGE_MODELS = c05._fn_edge_models()
+        edge = _EDGE_MODELS
         tag, raw = edge[(seed // 5) % len(edge)]
         build = lambda: ir.serde.deserialize_model(c05._parse(raw))  # noqa: E731
         source = f"edge:{tag}"
@@ -2924,9 +2958,14 @@ def _khist(r: random.Random) -> tuple[list, int, list]:
             n, o = node("Identity", [r.choice(list(outer))])
             nodes.append(n)
             outs.append(o[0])
-        return inputs, list(dict.fromkeys(outs)), nodes, inits
+        outs = list(dict.fromkeys(outs))
+        if r.random() < 0.2:
+            outs.append(r.choice(outs))  # a value listed twice
+        return inputs, outs, nodes, inits
 
     mi, mo, mn, mw = body(0, [], "")
+    if mw and r.random() < 0.4:
+        mi = mi + r.sample(mw, r.randint(1, len(mw)))  # initializers that are also graph inputs
     main = graph(mi, mo, mn, mw)
     funcs = []
     if r.random() < 0.4:
@@ -2941,7 +2980,7 @@ def kpass_case(part: Part, reqs: list, seed: int) -> None:
     from harness import kernel_ops as ko
 
     r = random.Random(f"kpass:{seed}")
-    which = ["dce", "ie"][seed % 2]
+    which = ["dce", "ie", "ofix", "ie", "rminit", "addinit", "dce", "ofix"][seed % 8]
     ops, main, funcs = _khist(r)
     case = {"kpass_seed": seed, "pass": which}
     real = ko.Real(model_sort=True)
@@ -2961,14 +3000,30 @@ def kpass_case(part: Part, reqs: list, seed: int) -> None:
     snap0 = real.snapshot()
     raised = None
     try:
-        p = cp.RemoveUnusedNodesPass() if which == "dce" else cp.IdentityEliminationPass()
-        res = p(model)
+        p = {"dce": cp.RemoveUnusedNodesPass, "ie": cp.IdentityEliminationPass, "rminit": cp.RemoveInitializersFromInputsPass,
+             "addinit": cp.AddInitializersToInputsPass, "ofix": cp.OutputFixPass}[which]()
+        # nodes the pass creates get the next ids, in creation order (as the kernel's `newNode` allocates them)
+        created: list = []
+        orig_init = ir.Node.__init__
+
+        def _recording_init(self, *a, **k):
+            orig_init(self, *a, **k)
+            created.append(self)
+
+        ir.Node.__init__ = _recording_init
+        try:
+            res = p(model)
+        finally:
+            ir.Node.__init__ = orig_init
+            for n in created:
+                real.reg_node(n)
+                for o in n.outputs:
+                    real.reg_val(o)
     except _Timeout:
         raise
     except Exception as e:  # noqa: BLE001
         raised = type(_root_cause(e)).__name__
         res = None
-    # objects the pass created would have to be registered; these two passes create none
     snap1 = real.snapshot()
     viol = ko.wf_oracle(real)
     if viol:
